@@ -111,8 +111,14 @@ fn hll_stream(ctx: &mut Ctx, rng: &mut Rng, lg_k: u8, t: HllType, n: u64, kind: 
             // the same stream seen through unions: into the same lg_k and into a smaller lg_max_k (whose result must
             // not be larger than lg_max_k allows); the result in every type obeys the same size rule
             if i <= 40 || i == n || i.is_power_of_two() {
-                for lg_max in [lg_k, lg_k.saturating_sub(2).max(4)] {
+                for (variant, lg_max) in [(0, lg_k), (1, lg_k.saturating_sub(2).max(4)), (2, lg_k.saturating_sub(2).max(4))] {
                     let mut u = HllUnion::new(lg_max);
+                    if variant == 2 {
+                        // the union already holds a few coupons of its own (list mode) when the sketch arrives
+                        for x in 0..3u64 {
+                            u.update_value((salt, x, 7u8));
+                        }
+                    }
                     u.update(&s);
                     for t2 in [HllType::Hll4, HllType::Hll6, HllType::Hll8] {
                         hll_image_size(ctx, &u.to_sketch(t2).serialize(), lg_max, i, "union result");
